@@ -88,6 +88,8 @@ for _p, _t in {
            "invariants (inv-entry / inv-step obligations). Clauses from the property statement: the new bins are the runs of `amount` adjacent old bins (last run shorter), from the run's first left "
            "edge to its last right edge; every new bin holds the run's summed content and squared error; totals (block-sum lemma proved by induction on every run) and missed counts conserved; the "
            "source is untouched and shares nothing with the result; a gap inside a run is refused (raise condition exact in both directions) with nothing changed. ",
+    "C09": "Unbounded (a 2-D histogram of ANY shape, z3 array terms, marginals / running sums as recursive sums of rows and columns): projection onto one axis by index or name; "
+           "Histogram2D.T; accumulate along exactly one axis (running sums of that axis only, bins / names / errors of the parent, parent untouched). ",
     "C13": "Unbounded: dtype promotion / consistency clauses of __imul__, __itruediv__, __iadd__, fill for any number of bins. ",
     "C16": "Unbounded (any number of bins): densities * widths == frequencies, widths > 0, centres, bin sizes, left / right edges, min / max edge, total width as the sum of the widths, "
            "total, cumulative frequencies as running sums ending at total and accumulated in numpy's default accumulator type. ",
